@@ -243,7 +243,7 @@ func (o MapOp) String() string {
 type MapExec struct {
 	Script bool    `json:"script,omitempty"`
 	Ops    []MapOp `json:"ops"`
-	Abort  bool    `json:"abort,omitempty"` // ends with a panic after its operations
+	Inject *Inject `json:"inject,omitempty"` // injected failure (nil: none); {panic, Pos=len(Ops)} is a plain abort at the end
 }
 
 type MapHistory struct {
@@ -279,9 +279,9 @@ func valueShow(t int, v string) string {
 	return "C.show(" + v + ")"
 }
 
-func renderOp(sb *strings.Builder, i int, o MapOp) {
+func renderOp(i int, o MapOp) (lines []string) {
 	a, p := acc(o.A), path(o.P)
-	w := func(f string, args ...any) { fmt.Fprintf(sb, "    "+f+"\n", args...) }
+	w := func(f string, args ...any) { lines = append(lines, fmt.Sprintf(f, args...)) }
 	switch o.Op {
 	case "save":
 		w(`%s.storage.save(%s, to: %s)`, a, valExpr(o.K, o.N), p)
@@ -324,33 +324,17 @@ func renderOp(sb *strings.Builder, i int, o MapOp) {
 	default:
 		panic("bad op " + o.Op)
 	}
+	return lines
 }
 
 // Source renders the execution as a Cadence transaction or script. Transactions
 // end with log("END") as their last statement (C24's marker).
 func (e MapExec) Source() string {
-	var sb strings.Builder
-	sb.WriteString("import C from 0x1\n")
-	if e.Script {
-		sb.WriteString("access(all) fun main() {\n")
-		for a := 0; a < MapAccounts; a++ {
-			fmt.Fprintf(&sb, "    let a%d = getAuthAccount<auth(Storage) &Account>(0x%d)\n", a, a+1)
-		}
-	} else {
-		sb.WriteString("transaction {\n  prepare(a0: auth(Storage) &Account, a1: auth(Storage) &Account, a2: auth(Storage) &Account) {\n")
-	}
+	groups := make([][]string, len(e.Ops))
 	for i, o := range e.Ops {
-		renderOp(&sb, i, o)
+		groups[i] = renderOp(i, o)
 	}
-	if e.Abort {
-		sb.WriteString("    C.fail(\"abort\")\n")
-	}
-	if e.Script {
-		sb.WriteString("}\n")
-	} else {
-		sb.WriteString("    log(\"END\")\n  }\n}\n")
-	}
-	return sb.String()
+	return Wrap("import C from 0x1\n", e.Script, groups, e.Inject)
 }
 
 // Step converts the execution into a prog.Step.
@@ -438,8 +422,9 @@ func (x ExpLog) Match(actual string) bool {
 // MapExpect is the model's prediction for one execution.
 type MapExpect struct {
 	Logs []ExpLog
-	// Fail: "" (succeeds), "overwrite", "mismatch", "abort".
-	Fail string
+	// Fail: "" (succeeds), "overwrite", "mismatch", "inject".
+	Fail      string
+	InjectErr string // error type of an injected failure
 	// Commits: the execution is a successful transaction (its effects persist).
 	Commits bool
 	// facts for the non-triviality rule
@@ -456,8 +441,8 @@ func (e MapExpect) FailErrorType() string {
 		return "OverwriteError"
 	case "mismatch":
 		return "StoredValueTypeMismatchError"
-	case "abort":
-		return "PanicError"
+	case "inject":
+		return e.InjectErr
 	}
 	return ""
 }
@@ -601,7 +586,12 @@ func (m *MapModel) apply(i int, o MapOp, x *MapExpect) (logs []ExpLog, fail stri
 func (m *MapModel) Step(e MapExec) MapExpect {
 	before := m.State
 	var x MapExpect
+	j := e.Inject
 	for i, o := range e.Ops {
+		if j.InBody() && j.Pos == i {
+			x.Fail = "inject"
+			break
+		}
 		logs, fail := m.apply(i, o, &x)
 		x.Logs = append(x.Logs, logs...)
 		if fail != "" {
@@ -609,8 +599,21 @@ func (m *MapModel) Step(e MapExec) MapExpect {
 			break
 		}
 	}
-	if x.Fail == "" && e.Abort {
-		x.Fail = "abort"
+	if x.Fail == "" && j != nil {
+		x.Fail = "inject"
+		if j.Kind == "post" && !e.Script {
+			// the code ran to its end; only the post-condition fails
+			x.Logs = append(x.Logs, ExpLog{Kind: "exact", Text: "END"})
+		}
+	}
+	if x.Fail == "inject" {
+		x.InjectErr = j.ErrorType()
+		if e.Script && !j.InBody() {
+			x.InjectErr = "PanicError"
+		}
+		if j.Mutate != "" || j.Kind == "mismatch-load" {
+			x.Mutations++
+		}
 	}
 	if x.Fail == "" && !e.Script {
 		x.Logs = append(x.Logs, ExpLog{Kind: "exact", Text: "END"})
@@ -713,6 +716,9 @@ func CanonVerify(lines []string) []string {
 type MapGenConfig struct {
 	MaxExecs int // default 25
 	MaxOps   int // default 5
+	// Injections: 35% of the executions get a failure injector (C24); otherwise ~12% of the
+	// transactions abort with a panic at the end or midway (C22).
+	Injections bool
 }
 
 func validTArgs(op string) []int {
@@ -757,8 +763,14 @@ func GenMapHistory(s Src, cfg MapGenConfig) MapHistory {
 				break // everything after a failing operation would be dead code
 			}
 		}
-		if !e.Script {
-			e.Abort = chance(s, "abort", 12)
+		switch {
+		case cfg.Injections && chance(s, "inject", 35):
+			e.Inject = GenInject(s, len(e.Ops), e.Script)
+		case !e.Script && chance(s, "abort", 12):
+			e.Inject = &Inject{Kind: "panic", Pos: len(e.Ops)}
+			if chance(s, "midway", 40) {
+				e.Inject.Pos = s.Intn("abortpos", len(e.Ops)+1)
+			}
 		}
 		h.Execs = append(h.Execs, e)
 		m.Step(e)
@@ -819,4 +831,17 @@ func genMapOp(s Src, m *MapModel) MapOp {
 		}
 	}
 	return o
+}
+
+// MapValueIsBig reports whether the value is stored in slabs of its own (not inlined).
+func MapValueIsBig(k, n int) bool {
+	switch k {
+	case KString:
+		return len(strPayload(n)) >= 600
+	case KArr:
+		return arrLen(n) >= bigLen
+	case KS, KR:
+		return compLen(n) >= bigLen
+	}
+	return false
 }
